@@ -110,6 +110,13 @@ def run_lattice(case):
             viols.append(util.viol(sig, msg, dict(case, only=cur)))
 
     only = case.get("only")
+    # adversarial call history inside the case: set-ups whose level counts differ by one, in both staggers (a memo keyed too coarsely shows up)
+    for M, stg in ((N + 1, "rho"), (max(N - 1, 1), "w"), (N, "w"), (N + 1, "rho"), (N, "rho")):
+        try:
+            c_ = s_stretch(M, 3.0, 0.4, stagger=stg, Vstretching=1)
+            sdepth(np.array([50.0, 80.0]), 10.0, c_, stagger=stg, Vtransform=2)
+        except Exception:
+            pass
     for ths, thb in itertools.product(THS, THB[Vs]):
         try:
             Cr = s_stretch(N, ths, thb, stagger="rho", Vstretching=Vs)
